@@ -95,8 +95,12 @@ class UpdateReferences:
           found = True
       elif isinstance(elem, gfapy.OrientedLine):
         if elem.line is oldref:
-          if hasattr(oldref, "is_complement") and \
-                            oldref.is_complement(newref):
+          if hasattr(oldref, "_complement_ends") and \
+              oldref._complement_ends(newref) and \
+              not (oldref.from_end == newref.from_end and
+                   oldref.to_end == newref.to_end):
+            # (the overlap of a placeholder link may be unspecified: the
+            #  direction is decided by the segment ends alone)
             elem.orient = gfapy.invert(elem.orient)
           elem.line = newref
           found = True
